@@ -1,6 +1,7 @@
-/- Driver ops for LevelBasedForaging.  Ops: lbf.{step, state, judge, instance} -/
+/- Driver ops for LevelBasedForaging.  Ops: lbf.{step, state, judge, instance, bounds} -/
 import JumanjiModel.Bridge.Json
 import JumanjiModel.Env.LBF.Model
+import JumanjiModel.Env.LBF.Bounds
 open Lean Jb
 
 namespace Jb.LBF
@@ -156,6 +157,17 @@ def opInstance : Op := fun j => do
         (!coop || decide (f.level = low3))))),
     ("collectable", jBool (decide (collectable s)))])
 
+/-- C01: the proven value interval of every observation leaf (`obsBounds`; theorems
+`Props.C01.lbf_{reset,step}_obs_in_bounds`); cfg additionally has num_agents, max_agent_level -/
+def opBounds : Op := fun j => do
+  let cfg ← getCfg j
+  let c ← field j "cfg"
+  let na ← fNat c "num_agents"
+  let ml ← fNat c "max_agent_level"
+  let jB (o : Option Rat) : Json := match o with | none => .null | some r => jRat r
+  pure (jObj ((obsBounds cfg na ml).map (fun b => (b.1, jObj [("lo", jB b.2.1), ("hi", jB b.2.2)]))))
+
 def ops : List (String × Op) :=
-  [("lbf.step", opStep), ("lbf.state", opState), ("lbf.judge", opJudge), ("lbf.instance", opInstance)]
+  [("lbf.step", opStep), ("lbf.state", opState), ("lbf.judge", opJudge), ("lbf.instance", opInstance),
+   ("lbf.bounds", opBounds)]
 end Jb.LBF
